@@ -292,7 +292,7 @@ func runOnce(c ccase) (res batch.Result, stalled bool) {
 			continue
 		}
 		if x.s != nil {
-			if r := x.s.Sync(); !r.Idle && !r.Closed {
+			if r := sess2.Sync(x.s); !r.Idle && !r.Closed {
 				res.Inconcl = fmt.Sprintf("%s: no synchronisation after %s (%v)", where, ev, r)
 				return
 			}
@@ -309,7 +309,7 @@ func runOnce(c ccase) (res batch.Result, stalled bool) {
 	if c.Unsynced {
 		for _, x := range cs {
 			if x.s != nil {
-				x.s.Sync()
+				sess2.Sync(x.s)
 			}
 		}
 		for _, x := range cs {
